@@ -43,7 +43,7 @@ class C10(Prop):
                   "was added; once no thread updates the counter any more (flusher between two flushes) at most one catch-up delta and then at most one zero are sent, and then nothing; every gauge flush returns "
                   "the fold of exactly the writes executed before its load; sequentially, for every history of a key: the counter, gauge "
                   "and histogram clauses of the executable property hold on the model, and composed: spec_ok holds on the model's run of every "
-                  "well-formed sequential case (presence phases = idle-once, increment sums, "
+                  "well-formed sequential case and of every completed scheduled case outside the open class (C10_spec_ok_on_model; presence phases = idle-once, increment sums, "
                   "absolute running-maximum differences without wrap, global bound, each histogram value in exactly one flush), timestamp "
                   "iff Aggressive; chained with C09's writer theorems: a sequential run never panics and every iteration's payloads are "
                   "the frames (LE32 len ++ body on a stream) of exactly the bodies its writer calls committed, and the stream decodes to them. "
@@ -53,12 +53,10 @@ class C10(Prop):
                   "not modelled: keys are independent cells. AtomicBucket/reservoir are a sequential bag (C05/C16 own their "
                   "concurrency). Composed theorem for sequential cases: C10_spec_ok_on_model_seq (forall c, seq_wf c -> spec_ok (CSeq c) (run_case (CSeq c)) "
                   "= true; seq_wf = counter values < 2^64, sampling windows within the reservoir, no newline byte in prefix/labels/key names). "
-                  "Scheduled cases: C10_spec_ok_on_model_sched_partial (known_class = None, non-empty threads, run completes within the round-robin "
-                  "fuel, counter driven only by increments or only by absolutes); both shapes: C10_spec_ok_on_model_partial. "
-                  "NOT proved: (i) the delta-bound clause of the scheduled checker on the model for programs MIXING increments and absolutes "
-                  "(the other three clauses are proved for every program); (ii) the concurrent conservation identity for absolutes (with two "
-                  "updaters it is false even outside the class); runs that exhaust the round-robin fuel are outside the class link (never "
-                  "generated); (iii) idle-once suffix form: flusher between flushes (C10_idle_once_suffix) or one "
+                  "Scheduled cases: C10_spec_ok_on_model_sched (known_class = None, non-empty threads, run completes within the round-robin fuel; "
+                  "any mix of increments and absolutes); both shapes: C10_spec_ok_on_model (forall c, known_class c = None -> case_wf_full c -> "
+                  "spec_ok c (run_case c) = true). NOT proved: (ii) the concurrent conservation identity for absolutes (with two updaters it is "
+                  "false even outside the class); runs that exhaust the round-robin fuel are outside the class link (never generated); (iii) idle-once suffix form: flusher between flushes (C10_idle_once_suffix) or one "
                   "flush in flight (C10_idle_once_suffix_in_flight); other threads may only touch the gauge. A first absolute racing a flush or another first absolute is the open finding C10-rebase-straddle. The forwarder loop (forwarder/sync.rs Forwarder::run, incl. the lifetime of FlushState and the UDP send) is not modelled; it is "
                   "exercised end to end by a real exporter built with DogStatsDBuilder against a harness UDP socket in both tiers (judged per key: "
                   "sums, exactly one closing zero, gauge in every flush, histogram values once, timestamp iff Aggressive). "
